@@ -393,6 +393,11 @@ func c06Make(r *prng.R, sp *c06Spec) *c06Case {
 	if r.Chance(1, 2) {
 		shape.Version = prng.Pick(r, []uint32{1, 2})
 	}
+	for k := range shape.Ins { // not-yet-signed sibling inputs: no unlocking script at all
+		if r.Chance(1, 4) {
+			shape.Ins[k].Unlock, shape.Ins[k].UnlockNil = nil, true
+		}
+	}
 	if sp.BigOut > 0 {
 		shape.Outs = append(shape.Outs, gen.Out{Sats: uint64(r.Intn(1000)), Script: append([]byte{0x00, 0x6a}, r.Bytes(sp.BigOut-2)...)})
 	}
